@@ -93,11 +93,6 @@ func l2FrameOp(c *ctx, f []string) {
 					continue
 				}
 				udp := b[14+ihl:]
-				// gopacket re-encodes the reply without the BOOTP padding: what the client reads is compared in the library's
-				// canonical form (parsed and serialised again), the raw bytes when they do not parse
-				if back, err := dhcpv4.FromBytes(payload); err == nil {
-					payload = back.ToBytes()
-				}
 				return fmt.Sprintf("frame %s %s %04x %d %d %d %d %s %s %d %d %s", hx(b[0:6]), hx(b[6:12]), binary.BigEndian.Uint16(b[12:14]),
 					b[14]>>4, b[14+8], b2i(b[14+6]&0x40 != 0), b[14+9], hx(b[14+12:14+16]), hx(b[14+16:14+20]),
 					binary.BigEndian.Uint16(udp[0:2]), binary.BigEndian.Uint16(udp[2:4]), hx(payload))
